@@ -291,23 +291,27 @@ def run_case(run, model, vsim, d, case, quick):
         start_model = {"cur": "%d.%d.%d" % (version_of(s0, 1), len(refs[1]), len(refs[1])),
                        "old": "%d.%d.%d" % (version_of(s0, 0), len(refs[0]), len(refs[0]))}
     mline = model_line(start_model, [(s, c, p) for (s, p), c in zip(sessions, chunkings)])
-    rcm, mout, em = V.run_lines(model, [mline])
-    mparts = [x.strip() for x in (mout[0] if mout else "").split(" / ")]
+    mparts = []
+    cur_model = dict(start_model)
     d.put(start_files)
     completed_before = bool(start_files)
     ok_all = True
+    pending = []
     impl_desc = []
     for k, (sess, plan) in enumerate(sessions):
         rel, res, rc = run_session(vsim, d, sess, plan)
         files = d.files()
         obs = observe(files, refs_by_ver)
-        mp = mparts[k] if k < len(mparts) else ""
+        # the model is run one process at a time, from the directory the previous process left
+        rcm, mout, em = V.run_lines(model, [model_line(cur_model, [(sess, chunkings[k], plan)])])
+        mp = (mout[0] if mout else "").strip()
+        mparts.append(mp)
         mm = re.match(r"results=(\S*) trace=(\S*) (cur:\S+ old:\S+) safe=(\w+) reg=(\S+)", mp)
         desc = {"trace": trace_str(rel), "results": res, "cur": obs["cur"] if obs["cur"] == "-" else list(obs["cur"]),
                 "old": obs["old"] if obs["old"] == "-" else list(obs["old"]), "rc": rc}
         impl_desc.append(desc)
         if not mm:
-            run.mismatch("protocol", {"model_case": mline}, desc, mp)
+            pending.append(({"model_case": mline}, desc, mp))
             ok_all = False
             break
         mres = [x for x in mm.group(1).split(",") if x]
@@ -323,14 +327,15 @@ def run_case(run, model, vsim, d, case, quick):
                     if mcur != "-":
                         v_, b_, t_ = map(int, mcur.split("."))
                         mfs = mfs.replace("cur:" + mcur, "cur:%d.%d.%d" % (v_, b_ + int(ex.group(1)), t_))
+        cur_model = dict(x.split(":") for x in mfs.split())
         same = (itrace == mm.group(2)) and match_model(obs, mfs, refs_by_ver)
         if res is None:
             same = same and (mres[-1:] == ["dead"])
         else:
             same = same and (mres == res)
         if not same:
-            run.mismatch("protocol", {"label": case["label"], "model_case": mline, "session": k, "plan": plan,
-                                      "scenario": scenario(sess)}, desc, mp)
+            pending.append(({"label": case["label"], "model_case": mline, "session": k, "plan": plan,
+                             "scenario": scenario(sess)}, desc, mp))
             ok_all = False
         if res and "ok" in res:
             completed_before = True
@@ -343,7 +348,7 @@ def run_case(run, model, vsim, d, case, quick):
     for k, n in (("cur", NAME), ("old", NAME + ".old")):
         if files[k] is not None:
             rc, ld = try_load(vsim, d, n)
-            if rc >= 128 or rc == 124:
+            if rc >= 128 or rc == 124 or rc < 0:
                 run.violation("load.crash", "loading %s left by the fault plan %s kills the process (rc=%d)" % (n, case["label"], rc),
                               {"kind": "crash", "case": case, "file": n})
             if ld and ld[0] == "ok" and (k, ld[1]) in comp:
@@ -366,9 +371,9 @@ def run_case(run, model, vsim, d, case, quick):
         run.violation(sig, "after a state had been completed, the fault plan %s leaves neither %s nor %s.old complete and loadable: %s"
                       % (case["label"], NAME, NAME, json.dumps(impl_desc[-1])[:300]),
                       {"kind": "crash", "case": case, "model_case": mline, "impl": impl_desc, "model": mparts})
-    # a save that reports success must have produced a complete file
-    for k, (sess, plan) in enumerate(sessions):
-        pass
+        pending = []     # the disagreement comes with a failing input of the property itself
+    for cs, dsc, mp in pending:
+        run.mismatch("protocol-tie", cs, dsc, mp)
     return ok_all, impl_desc, mparts
 
 
@@ -496,7 +501,7 @@ def run_damage(run, vsim, d, quick):
             stats[nm + "_prefixes"] += 1
             run.count("%s-prefix-%d" % (nm, cut), True)
             run.dist("damage:%s-prefix" % nm)
-            if rc >= 128 or rc == 124 or ld is None:
+            if rc >= 128 or rc == 124 or rc < 0 or ld is None:
                 stats["crashes"] += 1
                 run.violation("load.crash:%s-prefix" % nm, "loading the first %d of %d bytes of a valid %s state kills or hangs the process (rc=%d)" % (cut, n, nm, rc),
                               {"kind": "load", "format": nm, "cut": cut, "scenario": scenario(sess, distinct=True)})
@@ -513,16 +518,19 @@ def run_damage(run, vsim, d, quick):
                     stats["binary_prefix_accepted"] += 1
                     run.violation("load.binary-prefix-accepted", "a binary state cut at byte %d of %d loads without any error" % (cut, n),
                                   {"kind": "load", "format": nm, "cut": cut, "scenario": scenario(sess, distinct=True)})
-        for j in range(60 if quick else 5000):
-            pos = r.randrange(n)
-            bit = r.randrange(8)
+        flips = [(r.randrange(n), r.randrange(8)) for j in range(60 if quick else 5000)]
+        if nm == "text":
+            # aimed: every byte of the configuration block (step, dt, version, units and the separators)
+            a0 = data.find(b"{"); b0 = data.find(b"}")
+            flips = [(q, 0) for q in range(a0 + 1, b0 + 1)][:100] + flips
+        for pos, bit in flips:
             dd = bytearray(data)
             dd[pos] ^= (1 << bit)
             rc, ld = load(bytes(dd))
             stats[nm + "_flips"] += 1
             run.count("%s-flip-%d-%d" % (nm, pos, bit), True)
             run.dist("damage:%s-bitflip" % nm)
-            if rc >= 128 or rc == 124 or ld is None:
+            if rc >= 128 or rc == 124 or rc < 0 or ld is None:
                 stats["crashes"] += 1
                 run.violation("load.crash:%s-bitflip" % nm, "loading a valid %s state with bit %d of byte %d flipped kills or hangs the process (rc=%d)" % (nm, bit, pos, rc),
                               {"kind": "load", "format": nm, "flip": [pos, bit], "scenario": scenario(sess, distinct=True)})
